@@ -247,6 +247,11 @@ class EditRun:
                 flags.add('docstring_capable_body')
             if isinstance(tgt, (ast.Global, ast.Nonlocal)):
                 flags.add('global_nonlocal')
+            if isinstance(tgt, (ast.Call, ast.ClassDef)):
+                pos = [(a.lineno, a.col_offset) for a in (tgt.args if isinstance(tgt, ast.Call) else tgt.bases) if isinstance(a, ast.Starred)]
+                kws = [(k.lineno, k.col_offset) for k in tgt.keywords]
+                if pos and kws and min(kws) < max(pos):
+                    flags.add('call_has_keyword_before_starred')
             if isinstance(tgt, ast.If) and len(tgt.orelse) == 1 and isinstance(tgt.orelse[0], ast.If):
                 flags.add('target_if_with_lone_if_orelse')
             import re as _re
